@@ -151,6 +151,19 @@ def check(ctx, rep):
             x = x[2]
         if util.is_call(x, PO) and tuple(strip(a) for a in x[2]) == (("param", 1), ("param", 2)):
             dec = (bb, (bb, f_t) if neg else (bb, t_t), (bb, t_t) if neg else (bb, f_t))
+    if dec is None:
+        # the pairing test stated in place (or through a looked-through helper): the whole-array
+        # equality of the two halves' stored keys - what is_pair_of is decided to be
+        ek_ = key_field(ctx, "vanilla_header::encrypt::EncrypterHalf")
+        dk_ = key_field(ctx, "vanilla_header::decrypt::DecrypterHalf")
+        for c_ in util.compare_sites(ctx, se):
+            ok_, _w = util.whole_value_type(fb, c_["self_ty"])
+            ops_ = tuple(canon(ctx, se, a) for a in c_["args"])
+            want_ = (("field", ("param", 1), ek_), ("field", ("param", 2), dk_))
+            if ok_ and c_["self_ty"].k == "array" and c_["self_ty"].len == 40 and ops_ in (want_, want_[::-1]):
+                g_ = util.compare_gate(ctx, se, c_)
+                if g_ is not None:
+                    dec = (g_[0], g_[1], g_[2])
     vs = util.value_select(ctx, se, se.ret) if dec is None else None
     if vs is not None:
         # combinator spelling: is_pair_of(..).then(|| HeaderCrypto{..}).ok_or(UnsplitCryptoError{})
@@ -205,7 +218,18 @@ def check(ctx, rep):
     if dse is not None:
         r = strip(dse.ret)
         good = util.is_call(r, PO) and tuple(strip(a) for a in r[2]) == (("param", 2), ("param", 1))
-        rep.check(good, "unsplit", "vanilla_header::decrypt::DecrypterHalf::is_pair_of", "delegates", "delegates to EncrypterHalf::is_pair_of(other, self)", "DecrypterHalf::is_pair_of does not delegate: %s" % show(r, maxdepth=3))
+        if not good:
+            # or states the same thing itself: the whole-array equality of the two stored keys
+            dc = util.compare_sites(ctx, dse)
+            if len(dc) == 1:
+                c_ = dc[0]
+                ok_, _w = util.whole_value_type(fb, c_["self_ty"])
+                ek_ = key_field(ctx, "vanilla_header::encrypt::EncrypterHalf")
+                dk_ = key_field(ctx, "vanilla_header::decrypt::DecrypterHalf")
+                ops_ = tuple(strip(a) for a in c_["args"])
+                want_ = (("field", ("param", 1), dk_), ("field", ("param", 2), ek_))
+                good = ok_ and c_["self_ty"].k == "array" and c_["self_ty"].len == 40 and ops_ in (want_, want_[::-1]) and r == strip(c_["term"]) and c_["op"] == "eq"
+        rep.check(good, "unsplit", "vanilla_header::decrypt::DecrypterHalf::is_pair_of", "delegates", "same test as EncrypterHalf::is_pair_of (delegation, or the whole-array equality of the two stored keys)", "DecrypterHalf::is_pair_of is neither a delegation nor the whole-key equality: %s" % show(r, maxdepth=3))
     rep.check(fb.adts.get("vanilla_header::HeaderCrypto", {}).get("send") is True, "unsplit", "vanilla_header::HeaderCrypto", "Send", "re-joined object is Send", "HeaderCrypto is not Send")
 
 
